@@ -73,8 +73,7 @@ RULE = ("Hypothesis constructs tdm scripts (type tdm with options) with 0..4 int
         "parameters contains no p-name and is_template() iff a {} parameter is written; q = loads(dumps(p)) preserves the p-arrays "
         "exactly, the references to them and all operations. In the control group p-arrays are passed by value. Non-trivial = >=2 "
         "p-arrays and an ordinary variable or template parameter. Distinct = SHA-1 of the script text.")
-ASSUMPTIONS = ["reference interpreter", "the dumps/loads half is checked for tdm scripts whose variables are parameter-free "
-               "(p-arrays with {x} elements are checked on the load side: by name, data, parameters)"]
+ASSUMPTIONS = ["reference interpreter"]
 BUDGET = {"quick": (1200, 4), "thorough": (26000, 16)}
 
 
@@ -126,8 +125,7 @@ def check(c):
     if c["control"]:
         return out
     if any(canon.contains_sympy(v) for v in p.variables.values()):
-        out.classes.append("p-array-with-template-parameter (load side only)")
-        return out
+        out.classes.append("p-array-with-template-parameter")
     t, e = K.safe_dumps(p)
     if e is not None:
         out.violations.append(Violation(exc_bucket("dumps", e), "dumps raised %s: %s\n%s" % (type(e).__name__, e, text)))
